@@ -3,7 +3,7 @@ import copy
 import math
 
 import pipegen as G
-from common import run_model, enc, unbits, same_float, rel_close, is_real_finite
+from common import run_model, enc, unbits, same_float, rel_close, is_real_finite, tie_equal_vec
 from props.c09 import sec_tokens
 
 ID = 'C14'
@@ -86,7 +86,7 @@ def correspondence(ctx):
         ctx.count('corr_compared')
         got = [unbits(x) for x in o.split(' ')]
         flat = [float(x) for l in want for x in l]
-        if len(got) != len(flat) or not all(same_float(a, b) for a, b in zip(got, flat)):
+        if len(got) != len(flat) or not tie_equal_vec(ctx, got, flat):
             ctx.mismatch('Spec.Pipe.gradeLine differs from hydraulic_gradient', {'pipeline': G.describe(pl), 'Q': Q}, got, flat)
     if metas:
         ctx.sample({'pipeline': G.describe(metas[0][0]), 'Q': metas[0][1]})
